@@ -760,7 +760,9 @@ def msg_field(t, variant, name):
 def withdraw_rules(R, env, prog, hctx, rule, pid):
     """C02.R1 / C05.R1"""
     hk = hctx.body.key
-    batch = lambda t: loaded_batch(prog, t, lambda k: msg_field(k, "Withdraw", "batch_id"))
+    batch0 = lambda t: loaded_batch(prog, t, lambda k: msg_field(k, "Withdraw", "batch_id"))
+    # (also as a component of a loader helper's result: `load_received_batch(storage, id)?.0`)
+    batch = lambda t: batch0(t) or (t[0] == "field" and batch0(_head_resolved(prog, t)))
     req_key = lambda k: k[0] == "tuple" and len(k[1]) == 2 and k[1][0][0] == "field" and k[1][0][2] == "id" and batch(k[1][0][1]) and is_sender(k[1][1])
 
     def request(t):  # payload of unstake_requests().may_load(storage, (batch.id, sender))?
